@@ -5,6 +5,7 @@ package main
 // between a lookup helper and the case body does not matter.
 
 import (
+	"go/types"
 	"fmt"
 	"strings"
 
@@ -229,6 +230,48 @@ func checkCodec(w *World, r *Report, rule string) {
 	}
 	r.Check(fresh, rule, "codec:fresh-message", "the active deserializer returns a message created by the call itself", w.fnPos(des),
 		detail+": every inbound message of that type is the same object, a later payload overwrites the ones delivered before")
+	// what is a valid encoding is the codec's business alone: Deserialize takes no decision of its own on the payload
+	// bytes (a message whose fields are all at their default encodes to zero bytes; a length test refuses it)
+	{
+		var data *ssa.Parameter
+		for _, p := range des.Params {
+			if sl, ok := p.Type().Underlying().(*types.Slice); ok {
+				if b, ok := sl.Elem().Underlying().(*types.Basic); ok && b.Kind() == types.Byte {
+					data = p
+				}
+			}
+		}
+		var decides []string
+		if data != nil {
+			taint := map[ssa.Value]bool{data: true}
+			work := []ssa.Value{data}
+			for len(work) > 0 {
+				v := work[len(work)-1]
+				work = work[:len(work)-1]
+				if v.Referrers() == nil {
+					continue
+				}
+				for _, ref := range *v.Referrers() {
+					switch x := ref.(type) {
+					case *ssa.If:
+						decides = append(decides, w.pos(x.Cond.Pos()))
+					case *ssa.Call:
+						if b, ok := x.Call.Value.(*ssa.Builtin); ok && (b.Name() == "len" || b.Name() == "cap") && !taint[x] {
+							taint[x] = true
+							work = append(work, x)
+						}
+					case *ssa.BinOp, *ssa.UnOp, *ssa.Slice, *ssa.Convert, *ssa.ChangeType, *ssa.Phi, *ssa.Index, *ssa.IndexAddr:
+						if val, ok := ref.(ssa.Value); ok && !taint[val] {
+							taint[val] = true
+							work = append(work, val)
+						}
+					}
+				}
+			}
+		}
+		r.Check(data != nil && len(decides) == 0, rule, "codec:payload-not-judged", "the active deserializer branches on nothing computed from the payload bytes: whether they are a valid encoding is decided by the codec", w.fnPos(des),
+			"Deserialize branches on the payload at "+strings.Join(decides, ", ")+": an encoding the peer's codec produced (a message with all fields at their default is zero bytes long) is refused, the reader returns and the rest of the batch is lost with the stream")
+	}
 }
 
 // fromPackageState: v is (derived from) a value held in a package-level variable of the module: where from, else "".
